@@ -325,6 +325,12 @@ fn write_and_observe(tree: &ClassFile) -> Result<Value> {
 		return Ok(json!({"res": "err", "msg": format!("{e:#}").chars().take(300).collect::<String>()}));
 	}
 	tm("written");
+	// debugging aid: C02_DUMP=<dir> keeps the written class files
+	if let Some(dir) = std::env::var_os("C02_DUMP") {
+		static N: std::sync::atomic::AtomicUsize = std::sync::atomic::AtomicUsize::new(0);
+		let n = N.fetch_add(1, std::sync::atomic::Ordering::SeqCst);
+		std::fs::write(std::path::Path::new(&dir).join(format!("out{n}.class")), &bytes)?;
+	}
 	let parsed = match parse_class(&bytes) {
 		Ok(p) => p,
 		Err(e) => return Ok(json!({"res": "ok", "parse": "err", "msg": e.to_string(), "size": bytes.len()})),
